@@ -27,14 +27,10 @@ void vf_case(vf::Ctx& c) {
     std::vector<uint8_t> x = gen::gen_content(t, maxsz, &ci, wl ? ((size_t)1 << wl) : 0);
     int dec = (int)t.weighted({3, 2, 2});  // decompress | decompressDCtx | streaming
 
-    static ZSTD_CCtx* cctx = nullptr;
-    static ZSTD_DCtx* dctx = nullptr;
-    bool fresh = t.chance(30);
-    if (fresh && cctx) { ZSTD_freeCCtx(cctx); cctx = nullptr; }
-    if (!cctx) cctx = ZSTD_createCCtx();
-    if (!dctx) dctx = ZSTD_createDCtx();
-    ZSTD_CCtx_reset(cctx, ZSTD_reset_session_and_parameters);
-    ZSTD_DCtx_reset(dctx, ZSTD_reset_session_and_parameters);
+    // contexts live inside the case: a tape replays identically in a fresh process
+    struct Ctxs { ZSTD_CCtx* c = ZSTD_createCCtx(); ZSTD_DCtx* d = ZSTD_createDCtx(); ~Ctxs() { ZSTD_freeCCtx(c); ZSTD_freeDCtx(d); } } k;
+    ZSTD_CCtx* cctx = k.c; ZSTD_DCtx* dctx = k.d;
+    bool fresh = true;
 
     size_t bound = ZSTD_compressBound(x.size());
     vf::Buf src(x.data(), x.size());
